@@ -255,8 +255,13 @@ func (m *Manager) AddBlocks(blocks []types.Block) error {
 	for _, b := range blocks {
 		bid := b.ID()
 		var ok bool
-		if _, bs, _ := m.store.Block(bid); bs != nil {
+		if _, bs, ok := m.store.Block(bid); bs != nil {
 			// already have this block
+			cs, _ = m.store.State(bid)
+			continue
+		} else if _, known := m.store.Header(bid); known && !ok {
+			// already have this block, but its body was pruned; it must not
+			// be re-added, since that would replace its state
 			cs, _ = m.store.State(bid)
 			continue
 		} else if b.ParentID != cs.Index.ID {
